@@ -77,3 +77,10 @@ package ecdsa
 //@   on-call p.sendMsg(b, bc, dst):
 //@     assert [as-routed] same(b, msgBytes) && bc == routing.IsBroadcast && (bc ==> dst == 0) &&
 //@                        (!bc && 0 <= beint(to.Key) && beint(to.Key) <= 65535 ==> dst == beint(to.Key))
+
+// ---- unusable stored share data is an error, not a panic (C11) -----------------------------------------------------------
+
+//@ // whatever the stored bytes decode to: no panic; share data that is installed has a public key and every public share
+//@ func (*party).SetShareData
+//@   props C11
+//@   ensures [usable] result == nil ==> p.shareData != nil && p.shareData.ECDSAPub != nil
